@@ -95,8 +95,9 @@ class V:
             if s < 0:
                 raise DefError("fractional power of a negative scale")
             if isinstance(s, Fraction):
-                rn = _iroot(s.numerator, e.denominator) if s > 0 else None
-                rd = _iroot(s.denominator, e.denominator) if s > 0 else None
+                small = e.denominator <= 64  # exponents that come from floats (0.1 -> x/2**55) are not searched for exact roots
+                rn = _iroot(s.numerator, e.denominator) if s > 0 and small else None
+                rd = _iroot(s.denominator, e.denominator) if s > 0 and small else None
                 if rn is not None and rd is not None:
                     ns = Fraction(rn, rd) ** e.numerator
                 else:
